@@ -173,6 +173,10 @@ impl<Front: SocketHandler> RelayProxyProtocol<Front> {
                     debug_assert!(consumed > 0, "a recognized v2 header is non-empty");
                     consumed
                 }
+                // the client hung up inside the header
+                Err(Err::Incomplete(_)) if res == SocketResult::Closed => {
+                    return SessionResult::Close;
+                }
                 Err(Err::Incomplete(_)) => return SessionResult::Continue,
                 Err(e) => {
                     error!(
@@ -188,6 +192,9 @@ impl<Front: SocketHandler> RelayProxyProtocol<Front> {
             return SessionResult::Continue;
         }
 
+        if res == SocketResult::Closed {
+            return SessionResult::Close;
+        }
         SessionResult::Continue
     }
 
